@@ -325,7 +325,12 @@ class _ReadSourceGenerator:
                 reads.append(f"_t = {self._map_field(field)}")
                 reads.append("_et = _t.type")
 
-                if issubclass(read_type, Int):
+                if issubclass(field_type.type, Pointer) and issubclass(read_type, Int):
+                    # Addresses of a width struct cannot unpack: parse each slice with the pointer's integer type
+                    reads.append(f"_b = {getter}")
+                    item_parser = f"_et.__new__(_et, cls.cs.pointer(_b[i:i + {field_type.type.size}]), stream, r)"
+                    list_comp = f"[{item_parser} for i in range(0, {count}, {field_type.type.size})]"
+                elif issubclass(read_type, Int):
                     # Also enums over an Int type: the elements are sliced out of the raw bytes
                     reads.append(f"_b = {getter}")
                     item_parser = parser_template.format(type="_et", getter=f"_b[i:i + {field_type.type.size}]")
@@ -342,7 +347,11 @@ class _ReadSourceGenerator:
                 parser = f"type.__call__({self._map_field(field)}, {getter})"
             elif issubclass(field_type, Pointer):
                 reads.append(f"_pt = {self._map_field(field)}")
-                parser = f"_pt.__new__(_pt, {getter}, stream, r)"
+                if issubclass(read_type, Int):
+                    # An address of a width struct cannot unpack: parse the slice with the pointer's integer type
+                    parser = f"_pt.__new__(_pt, cls.cs.pointer({getter}), stream, r)"
+                else:
+                    parser = f"_pt.__new__(_pt, {getter}, stream, r)"
             else:
                 parser = parser_template.format(type=self._map_field(field), getter=getter)
 
